@@ -252,6 +252,15 @@ def handle (op : String) (args : List String) : Option String := do
       let (ls, b) ← closedLabels k
       let lit := if idx.size ≤ literalLimit then closedLiteral k idx.toList else none
       pure (boolStr (closedByLabels ls b idx lit))
+  | ["c18", "holds", "manifold"] => do
+      -- one umbrella per merged vertex, and connected (predicates of Model/SolidsTopo.lean on the merged labels)
+      let (k, i) ← rdKindArg a 0
+      let (idx, i) ← rdNats a i
+      done a i
+      if !admissible k then pure "false" else
+      let (ls, b) ← closedLabels k
+      if !(idx.all (· < ls.size)) || idx.size % 3 != 0 then pure "false" else
+      pure (boolStr (manifoldConnectedB b (idx.map fun v => ls.getD v b)))
   | ["c18", "holds", "closed_by_position"] => do
       let (cls, i) ← rdNats a 0
       let (idx, i) ← rdNats a i
